@@ -706,8 +706,9 @@ def dedication_of(a, cparts):
         return None
     left, bar, _ = a.args.partition("|")
     if not bar:
-        # `#[parent(Type)]` / `#[ghost(Type)]` bare dedications are not used by this oracle
-        return None
+        # `#[parent(Type)]` / `#[ghost(Type)]`: a dedication without parameters
+        n = norm_ty(left.replace("::<", "<"))
+        return n if n in cparts else None
     n = norm_ty(left.replace("::<", "<"))
     return n if n in cparts else None
 
